@@ -64,6 +64,9 @@ def check_step(obs, i):
     rec = obs[i]
     ev, pre = rec["ev"], rec["pre"]
     out = []
+    if rec.get("raised"):
+        out.append((f"C30:aggregator-raised:{ev}:{rec['raised'].split(':')[0]}",
+                    f"handling {ev} (step {i}) raised {rec['raised']}"))
     pre_pl, post_pl = H.count_by_run(rec["pre_db"]["plot_logs"]), H.count_by_run(rec["db"]["plot_logs"])
     pre_rr, post_rr = H.count_by_run(rec["pre_db"]["recent_runs"]), H.count_by_run(rec["db"]["recent_runs"])
     for r in sorted(post_pl):
